@@ -167,7 +167,10 @@ def check(ctx, res) -> None:
 
     # (b) do clears redo on every normal exit; every undo append is followed by trimming
     m = hist.methods["do"]
-    cfg = CFG(m.node)
+    trim = [n for n, mm in hist.methods.items()
+            if any(isinstance(x, ast.Delete) and any(canon(getattr(t, "value", None)) == und for t in x.targets)
+                   for x in walk_local(mm.node)) and any(isinstance(x, ast.Compare) for x in walk_local(mm.node))]
+    cfg = CFG(common.inline_private_calls(idx, m, keep=trim))
 
     def clears_redo(n):
         if n.ast is None:
@@ -183,9 +186,6 @@ def check(ctx, res) -> None:
     res.add("R11.3", "History.do|clear-redo", ok, m.where,
             "every normal exit of History.do passes through clearing the redo list" if ok else
             "a normal path through History.do keeps the redo list: redo after a new change would re-apply stale changes")
-    trim = [n for n, mm in hist.methods.items()
-            if any(isinstance(x, ast.Delete) and any(canon(getattr(t, "value", None)) == und for t in x.targets)
-                   for x in walk_local(mm.node)) and any(isinstance(x, ast.Compare) for x in walk_local(mm.node))]
     appends = [n for n in cfg.nodes if n.kind == "stmt" and any(
         isinstance(c.func, ast.Attribute) and c.func.attr == "append" and canon(c.func.value) == und for c in calls_in(n.ast))]
     is_trim = lambda n: n.ast is not None and any(is_self_attr(c.func) and c.func.attr in trim for c in calls_in(n.ast))
@@ -312,10 +312,14 @@ def check(ctx, res) -> None:
     # ---- R11.4 symmetric containment
     dep = idx.need_func("rope.base.history._FindChangeDependencies._depends_on")
     pairs = set()
-    for c in calls_in(dep.node):
-        if isinstance(c.func, ast.Attribute) and c.func.attr == "contains" and len(c.args) == 1:
-            pairs.add((norm(c.func.value), norm(c.args[0])))
-    sym = any((b, a) in pairs for a, b in pairs)
+    sym = False
+    for g in common.with_private_helpers(idx, dep):
+        here = set()
+        for c in calls_in(g.node):
+            if isinstance(c.func, ast.Attribute) and c.func.attr == "contains" and len(c.args) == 1:
+                here.add((norm(c.func.value), norm(c.args[0])))
+        pairs |= here
+        sym = sym or any((b, a) in here for a, b in here)
     res.add("R11.4", "_FindChangeDependencies._depends_on", bool(pairs) and sym, dep.where,
             "containment is tested in both directions" if pairs and sym else
             "the dependency test checks containment in one direction only: a change to a file inside a later created/moved folder "
